@@ -1,10 +1,12 @@
 (** C02 — calls return their own handler's result, and every operation resolves.
     Statements only; proofs live in Inv/. Every call owns one response slot in the model.
-    [partial]: "every operation resolves once the target has terminated" is enforced by the
-    model's progress check at quiescence and clock events ([stable]: no pending operation may
-    be able to return) and validated by correspondence and the search acceptor; it is not stated
-    as a theorem here (C04_announce and C06_containment cover awaits and the failure paths). *)
-From Hannibal Require Import Model.Sys Inv.C02.
+    "Every operation resolves once the target has terminated" is the second half of this file:
+    in every reachable state an operation on a terminated actor can return
+    ([C02_dead_target_resolves]), so - the model accepting the end of a run only when nothing can
+    still return - no accepted run ends with an operation pending on a terminated actor
+    ([C02_nothing_hangs_on_a_dead_actor]). That the implementation's runs are accepted is the
+    correspondence check. *)
+From Hannibal Require Import Model.Sys Inv.SysOk Inv.C02 Inv.C02b Inv.C02c Inv.C02d Inv.C02e Inv.C02f.
 
 (** a call that returns Ok(v) returns what its own slot holds; Err(Canceled) only for a slot
     that was dropped unanswered *)
@@ -38,3 +40,59 @@ Theorem C02_response_written_once :
   exists p', ops s' o = Some p' /\ op_slot p' = SVal v.
 Proof. exact response_written_once. Qed.
 Print Assumptions C02_response_written_once.
+
+(** * Every operation resolves *)
+
+(** In every reachable state, a call or ping that still waits for its response (its slot is
+    open) has its message queued in the mailbox of its target or being handled there right now:
+    a response cannot get lost while the actor lives. *)
+Theorem C02_waiting_call_is_queued_or_running :
+  forall tr s o p, run init tr = Acc s -> ops s o = Some p -> op_slot p = SOpen ->
+  exists x, actors s (op_a p) = Some x
+    /\ (In (PTask o) (a_queue x) \/ exists dl, a_phase x = PhHandle o dl).
+Proof. intros tr s o p H. exact (ci_open _ (C02_inv_run _ _ _ C02_inv_init H) o p). Qed.
+Print Assumptions C02_waiting_call_is_queued_or_running.
+
+(** In every reachable state, every client operation (send, call, ping, stop, halt, await, join,
+    consume, ... - everything but the registry operations, which address no actor) that has not
+    returned yet and whose target has terminated - for whatever reason - can return now:
+    [ret_expect] names the result it will return (Err(Canceled) for a call whose message was
+    dropped, the termination result for an await, None / the value for a join, ...). *)
+Theorem C02_dead_target_resolves :
+  forall tr s o p x, run init tr = Acc s -> ops s o = Some p -> op_done p = false -> op_k p <> XReg ->
+  actors s (op_a p) = Some x -> a_phase x = PhDone -> ret_expect p x o <> None.
+Proof. intros tr s o p x H. apply dead_target_resolves. exact (C02_inv_run _ _ _ C02_inv_init H). Qed.
+Print Assumptions C02_dead_target_resolves.
+
+(** A run ends (the executor has nothing left to run and nobody sleeps) only in a state in which
+    every operation on a terminated actor has returned: nothing hangs. *)
+Theorem C02_nothing_hangs_on_a_dead_actor :
+  forall tr s s', run init tr = Acc s -> step s EvQuiesce = Acc s' ->
+  forall o p x, ops s o = Some p -> op_k p <> XReg -> op_reg p = None ->
+  actors s (op_a p) = Some x -> a_phase x = PhDone -> op_done p = true.
+Proof.
+  intros tr s s' H Hq o p x Hp Hk Hr Hx Hd.
+  destruct (op_done p) eqn:Ed; [reflexivity|]. exfalso.
+  pose proof (pend_ok_run _ _ _ pend_ok_init H _ _ Hp Ed) as Hin.
+  cbn [step] in Hq. apply check_acc in Hq. destruct Hq as [Hst _].
+  unfold stable in Hst. apply andb_true_iff in Hst. destruct Hst as [_ Hst].
+  rewrite forallb_forall in Hst. specialize (Hst _ Hin). unfold op_stable in Hst.
+  rewrite Hp, Ed, Hr, Hx in Hst. cbn in Hst.
+  pose proof (dead_target_resolves _ _ _ _ (C02_inv_run _ _ _ C02_inv_init H) Hp Ed Hk Hx Hd) as Hn.
+  destruct (ret_expect p x o); [discriminate | contradiction].
+Qed.
+Print Assumptions C02_nothing_hangs_on_a_dead_actor.
+
+(** the hypotheses are met: a call pending on an actor whose task is then cancelled *)
+Example C02_pending_call_on_a_cancelled_actor :
+  let c := {| sc_bound := None; sc_timeout := None; sc_failto := false; sc_strat := RestartOnly;
+              sc_stream := false; sc_entry := 2; sc_ty := 0 |} in
+  match run init [EvSpawn 0 c; EvHandle 0 0 KAddr; EvOp 1 0 0 OCall 0 0; EvCrash 0; EvTaskEnd 0 EndCancelled] with
+  | Acc s => match ops s 1, actors s 0 with
+             | Some p, Some x => Some (op_done p, a_phase x, ret_expect p x 1)
+             | _, _ => None
+             end
+  | Rej _ => None
+  end = Some (false, PhDone, Some (RErr ECanceled))
+  /\ accepts [EvSpawn 0 c; EvHandle 0 0 KAddr; EvOp 1 0 0 OCall 0 0; EvCrash 0; EvTaskEnd 0 EndCancelled; EvQuiesce] = false.
+Proof. vm_compute. split; reflexivity. Qed.
